@@ -17,9 +17,10 @@
      on_message_ok   whether Handler.OnMessage(payload) returned nil
      on_session_ok   whether Handler.OnSession returned nil (argument: the new server salt)
 
-   Recursion: a container recurses into its messages (fuel, one unit per container level;
-   fuel = length of the payload always suffices), a gzip_packed message recurses into the
-   decompressed content (gz, one unit per gzip level; the content gets fresh fuel = its length). *)
+   Recursion: a container recurses into its messages and a gzip_packed message into the
+   decompressed content; handleNestedMessage carries the nesting depth and refuses to go deeper
+   than maxMessageNesting (generated).  The model recurses structurally on the remaining budget
+   (budget = maxMessageNesting - depth) and reports the deepest level it reached. *)
 From Coq Require Import ZArith List Bool.
 From TD Require Import Lib.Bytes Lib.GoSem Lib.GoSlice Gen.TlConsts Gen.HandleConsts Model.TlPrim.
 Import ListNotations.
@@ -37,12 +38,12 @@ Inductive effect : Type :=
 Inductive herr : Type :=
 | HDecode       (* some Decode / PeekID returned an error *)
 | HHandler      (* NotifyResult / OnMessage / OnSession returned an error *)
-| HFuel         (* container nesting budget exhausted (never with fuel = length) *)
-| HGz.          (* gzip nesting budget exhausted *)
+| HDepth.       (* "messages are nested more than maxMessageNesting levels deep" *)
 Inductive status : Type := SOk | SErr (e : herr) | SPanic.
 Definition hres : Type := (list effect * status)%type.
+(* result of handleMessage: effects, status, deepest nesting level reached *)
+Definition dres3 : Type := (hres * nat)%type.
 
-Definition max_message_bytes : Z := 1024 * 1024.   (* proto/container.go: m.Bytes > 1024*1024 *)
 
 (* ---------- decoders of the service types ---------- *)
 (* fixed sequences of primitives go through TlPrim.decode_all *)
@@ -125,11 +126,11 @@ Definition dec_future_salts (b : list Z) : dres (list (Z * Z * Z)) :=
   | [PLong _; PInt _; PInt n] => dec_salts (S (length b4)) n b4
   | _ => Err EEOF
   end.
-(* proto.Message.Decode: msg_id, seqno, bytes (0..1 MiB), body = make([]byte, bytes) + ConsumeN *)
+(* proto.Message.Decode: msg_id, seqno, bytes (range check generated: msg_bytes_invalid), body = make([]byte, bytes) + ConsumeN *)
 Definition dec_msg (b : list Z) : dres (list Z) :=
   do (ps, b3) <- decode_all [KLong; KInt; KInt] b;
   match ps with
-  | [PLong _; PInt _; PInt n] => if (n <? 0) || (n >? max_message_bytes) then Err EInvalidLength else take n b3
+  | [PLong _; PInt _; PInt n] => if msg_bytes_invalid n then Err EInvalidLength else take n b3
   | _ => Err EEOF
   end.
 Fixpoint dec_msgs (k : nat) (n : Z) (b : list Z) : dres (list (list Z)) :=
@@ -198,42 +199,56 @@ Section Handle.
         else route_result req id body)).
 
   (* for _, msg := range container.Messages { if err := ...; err != nil { return err } } *)
-  Fixpoint run_msgs (h : list Z -> hres) (msgs : list (list Z)) : hres :=
+  (* ... also reporting the deepest level reached below *)
+  Fixpoint run_msgs_d (h : list Z -> dres3) (msgs : list (list Z)) : dres3 :=
     match msgs with
-    | [] => ([], SOk)
+    | [] => (([], SOk), O)
     | m :: t =>
-        let '(e1, s1) := h m in
+        let '((e1, s1), d1) := h m in
         match s1 with
-        | SOk => let '(e2, s2) := run_msgs h t in (e1 ++ e2, s2)
-        | _ => (e1, s1)
+        | SOk => let '((e2, s2), d2) := run_msgs_d h t in ((e1 ++ e2, s2), Nat.max d1 d2)
+        | _ => ((e1, s1), d1)
         end
     end.
+  Definition leaf (r : hres) : dres3 := (r, O).
+  Definition lift_status_d {A} (r : res tl_err A) (k : A -> dres3) : dres3 :=
+    match r with
+    | Ok a => k a
+    | Err _ => (([], SErr HDecode), O)
+    | Panic => (([], SPanic), O)
+    end.
 
-  Fixpoint handle (gz : nat) : nat -> Z -> list Z -> hres :=
-    fix inner (fuel : nat) (msg_id : Z) (b : list Z) {struct fuel} : hres :=
-      lift_status (peek_id b) (fun id =>
-        match handle_dispatch id with
-        | T_handleSessionCreated => handle_session b
-        | T_handleBadMsg => handle_bad_msg b
-        | T_handleFutureSalts => handle_future_salts b
-        | T_handleContainer =>
-            lift_status (dec_container b) (fun '(msgs, _) =>
-              match fuel with
-              | O => ([], SErr HFuel)
-              | S fuel' => run_msgs (inner fuel' msg_id) msgs
-              end)
-        | T_handleResult => handle_result b
-        | T_handlePong => handle_pong b
-        | T_handleAck => handle_ack b
-        | T_handleGZIP =>
-            lift_status (dec_gzip b) (fun content =>
-              match gz with
-              | O => ([], SErr HGz)
-              | S gz' => handle gz' (length content) msg_id content
-              end)
-        | T_nil => ([], SOk)
-        | T_handler_OnMessage => ([EOnMessage b], if on_message_ok b then SOk else SErr HHandler)
-        end).
+  (* handleNestedMessage(msgID, b, depth) with budget = maxMessageNesting - depth.  The depth
+     check of handleContainer / handleGZIP comes before any decoding. *)
+  Fixpoint handle (budget : nat) (msg_id : Z) (b : list Z) {struct budget} : dres3 :=
+    lift_status_d (peek_id b) (fun id =>
+      match handle_dispatch id with
+      | T_handleSessionCreated => leaf (handle_session b)
+      | T_handleBadMsg => leaf (handle_bad_msg b)
+      | T_handleFutureSalts => leaf (handle_future_salts b)
+      | T_handleContainer =>
+          match budget with
+          | O => leaf ([], SErr HDepth)
+          | S k =>
+              lift_status_d (dec_container b) (fun '(msgs, _) =>
+                let '(r, d) := run_msgs_d (handle k msg_id) msgs in (r, S d))
+          end
+      | T_handleResult => leaf (handle_result b)
+      | T_handlePong => leaf (handle_pong b)
+      | T_handleAck => leaf (handle_ack b)
+      | T_handleGZIP =>
+          match budget with
+          | O => leaf ([], SErr HDepth)
+          | S k =>
+              lift_status_d (dec_gzip b) (fun content =>
+                let '(r, d) := handle k msg_id content in (r, S d))
+          end
+      | T_nil => leaf ([], SOk)
+      | T_handler_OnMessage => leaf ([EOnMessage b], if on_message_ok b then SOk else SErr HHandler)
+      end).
+  (* Conn.handleMessage *)
+  Definition handle_message (msg_id : Z) (b : list Z) : dres3 :=
+    handle (Z.to_nat c_maxMessageNesting) msg_id b.
 
   (* ---------- specification vocabulary for C23_routing ---------- *)
   (* m is a (sub)message of b: b itself, a message of a container that is a submessage, or
@@ -245,16 +260,53 @@ Section Handle.
       submsg m x -> submsg b x
   | sub_gzip b content x :
       peek_id b = Ok c_GZIPTypeID -> dec_gzip b = Ok content -> submsg content x -> submsg b x.
-  (* the int64 at offset 4: req_msg_id of rpc_result, bad_msg_id of bad_msg_notification / bad_server_salt *)
-  Definition id_field (m : list Z) : option Z :=
-    match decode_long (skipn 4 m) with Ok (v, _) => Some v | _ => None end.
-  Definition names (m : list Z) (tid id : Z) : Prop := peek_id m = Ok tid /\ id_field m = Some id.
+  (* the (possibly decompressed) body that handleResult routes *)
+  Definition result_content (body content : list Z) : Prop :=
+    content = body \/ (peek_id body = Ok c_GZIPTypeID /\ dec_gzip body = Ok content).
+  (* e is justified by the (sub)message m: m is the rpc_result / bad_msg_notification /
+     bad_server_salt that carries exactly the id AND the payload / error code of e *)
+  Definition caused_by (m : list Z) (e : effect) : Prop :=
+    match e with
+    | ENotifyResult id payload =>
+        exists body rest, dec_result m = Ok ((id, body), rest) /\ result_content body payload
+    | ENotifyError id code =>
+        (exists body rest content rest', dec_result m = Ok ((id, body), rest) /\ result_content body content /\
+                                        peek_id content = Ok c_mt_RPCErrorTypeID /\ dec_rpc_error content = Ok (code, rest')) \/
+        (exists rest, dec_bad_msg m = Ok ((id, code), rest)) \/
+        (exists rest, dec_bad_salt m = Ok ((id, code), rest))
+    | _ => True
+    end.
   Definition routed (b : list Z) (e : effect) : Prop :=
     match e with
-    | ENotifyResult id _ => exists m, submsg b m /\ names m c_ResultTypeID id
-    | ENotifyError id _ =>
-        exists m, submsg b m /\
-          (names m c_ResultTypeID id \/ names m c_mt_BadMsgNotificationTypeID id \/ names m c_mt_BadServerSaltTypeID id)
+    | ENotifyResult _ _ | ENotifyError _ _ => exists m, submsg b m /\ caused_by m e
     | _ => True
     end.
 End Handle.
+
+(* ---------- registries of waiters: handlePong (c.ping) and rpc.Engine.NotifyAcks (e.ack) ----------
+   Both do, under their mutex:  ch, ok := m[id]; if ok { close(ch); delete(m, id) }.
+   A registry maps an id to the state of its channel; closing a closed channel panics. *)
+Inductive chan_state : Type := ChOpen | ChClosed.
+Fixpoint reg_find (r : list (Z * chan_state)) (id : Z) : option chan_state :=
+  match r with
+  | [] => None
+  | (i, s) :: t => if i =? id then Some s else reg_find t id
+  end.
+Fixpoint reg_delete (r : list (Z * chan_state)) (id : Z) : list (Z * chan_state) :=
+  match r with
+  | [] => []
+  | (i, s) :: t => if i =? id then reg_delete t id else (i, s) :: reg_delete t id
+  end.
+Definition close_delete (r : list (Z * chan_state)) (id : Z) : res unit (list (Z * chan_state)) :=
+  match reg_find r id with
+  | None => Ok r
+  | Some ChClosed => Panic                 (* close of closed channel *)
+  | Some ChOpen => Ok (reg_delete r id)    (* close(ch); delete(m, id) *)
+  end.
+Fixpoint close_all (r : list (Z * chan_state)) (ids : list Z) : res unit (list (Z * chan_state)) :=
+  match ids with
+  | [] => Ok r
+  | id :: t => match close_delete r id with Ok r' => close_all r' t | Err e => Err e | Panic => Panic end
+  end.
+Definition all_open (r : list (Z * chan_state)) : Prop := Forall (fun p => snd p = ChOpen) r.
+
